@@ -19,6 +19,12 @@ class AstToSqlVisitor(visitor.NodeVisitor):
         super().__init__()
         self.table_alias = table_alias
 
+    def generic_visit(self, node: ast._Node) -> str:
+        ":meta private:"
+        # Every node that can be expressed in SQL has an explicit visitor method.
+        # Anything else must not silently end up as "None" in the output:
+        raise exceptions.UnsupportedNodeException(type(node).__name__)
+
     def visit_Identifier(self, node: ast.Identifier) -> str:
         ":meta private:"
         # Double quotes for column names acc SQL Standard
